@@ -500,3 +500,60 @@ def confirm_walk(work, kind, start, seed, opts, tours_path, maxextra):
         return False
     ok, at, _ = validate_trace(work, "TraceWalk", trace)
     return not ok
+
+
+def chunk_stage(rep, work, name, constants, systems, scales, e2e_every=1, timeout=1800):
+    """C12: TLC model-checks the decoder state machine (DecodeExact) and emits
+    the cases; the harness runs each against the real decoder and end to end."""
+    # (1) the state machine under all fragmentations
+    mc = dict(constants, Emit=False)
+    write_cfg(work.path("MC_Chunked.mc.cfg"), mc, invariants=["DecodeExact"])
+    res = run_tlc(work, "MC_Chunked.tla", "MC_Chunked.mc.cfg", workers=8, timeout=timeout)
+    if not res.ok:
+        raise Infra("MC_Chunked model check failed:\n" + "\n".join(res.log[-30:]))
+    rep.add_tlc(name + "/model", res)
+    # (2) case emission + execution
+    em = dict(constants, Emit=True)
+    write_cfg(work.path("MC_Chunked.emit.cfg"), em, init="Init", next_="Stutter", invariants=["EmitInv"])
+    out = work.path("chunk.%s.json" % re.sub(r"\W", "_", name))
+    cmd = [HARNESS, "chunk", "--systems", ",".join(systems), "--scales", ",".join(str(x) for x in scales),
+           "--seed", str(rep.seed), "--out", out, "--e2e-every", str(e2e_every)]
+    p = subprocess.Popen(cmd, stdin=subprocess.PIPE, stderr=subprocess.PIPE, bufsize=1 << 20)
+    errbuf = []
+    t = threading.Thread(target=lambda: errbuf.extend(p.stderr.readlines()), daemon=True)
+    t.start()
+    res2 = run_tlc(work, "MC_Chunked.tla", "MC_Chunked.emit.cfg", sink=p.stdin, workers=1, timeout=timeout)
+    p.stdin.close()
+    rc = p.wait()
+    t.join(timeout=5)
+    if rc != 0 or not res2.ok:
+        raise Infra("chunk stage failed: harness rc=%s tlc ok=%s\n%s\n%s" % (rc, res2.ok, b"".join(errbuf).decode()[-2000:], "\n".join(res2.log[-20:])))
+    with open(out) as f:
+        summ = json.load(f)
+    rep.add_tlc(name + "/cases", res2)
+    rep.traces += summ["decoder_runs"] + summ["e2e_runs"]
+    rep.steps += summ["decoder_runs"] + summ["e2e_runs"]
+    rep.stages.append({"stage": name, "cases": summ["cases"], "decoder_runs": summ["decoder_runs"], "e2e_runs": summ["e2e_runs"],
+                       "per_system": summ["per_system"], "failures": summ["n_failures"], "scales": list(scales)})
+    for smp in summ.get("samples") or []:
+        if len(rep.samples) < 4:
+            rep.samples.append(smp)
+    import hashlib
+    seen = set()
+    for f in summ.get("failures") or []:
+        sig = (f["system"], f["case"]["mal"], f["msg"][:40])
+        fid = classify(rep.prop, f["system"], "Chunk", f["msg"])
+        if fid:
+            rep.known[fid] = rep.known.get(fid, 0) + 1
+            continue
+        if sig in seen:
+            continue
+        seen.add(sig)
+        os.makedirs(os.path.join(VERIF, "replays"), exist_ok=True)
+        rp = os.path.join(VERIF, "replays", "C12-chunk-%s.json" % hashlib.sha1(json.dumps(f, sort_keys=True).encode()).hexdigest()[:16])
+        with open(rp, "w") as fh:
+            json.dump(f, fh, indent=1)
+        rep.violations.append((rp, "%s scale %d: %s  [case %s]" % (f["system"], f["scale"], f["msg"], json.dumps(f["case"]))))
+    log("stage %-28s model %d states; %d cases, %d decoder + %d e2e runs, %d failures" % (
+        name, res.distinct, summ["cases"], summ["decoder_runs"], summ["e2e_runs"], summ["n_failures"]))
+    return summ
